@@ -126,6 +126,14 @@ def make_problem(g, enc, nobj, n, k):
             nlo = numpy.repeat(1 if enc == "Integer" else 0.25, n); nup = numpy.repeat(2 if enc == "Integer" else 0.5, n)
             prob.decn_space_lower = nlo; prob.decn_space_upper = nup; prob.decn_space = numpy.stack([nlo, nup])
             dcls += "/bounds changed through setters"
+        elif enc in ("Integer", "Real") and g.random() < 0.35:
+            # per-variable ranges anywhere on the number line: entirely negative, straddling zero, degenerate (lower == upper)
+            if enc == "Integer":
+                nlo = g.integers(-9, 5, n); nup = nlo + g.integers(0, 6, n)
+            else:
+                nlo = numpy.round(g.uniform(-3, 2, n), 2); nup = nlo + numpy.round(g.uniform(0, 2, n), 2)
+            prob.decn_space_lower = nlo; prob.decn_space_upper = nup; prob.decn_space = numpy.stack([nlo, nup])
+            dcls += "/negative and mixed-sign ranges"
     return prob, dcls, ebv
 
 
